@@ -34,6 +34,8 @@ def run(ctx):
     def payload(p):
         return ("field", ("downcast", p, "Some"), "0", "std::option::Option")
 
+    from analysis.beta import normalize
+    cfg = q.cfg
     calls = [c for c in q.calls() if c.target is not None and c.target.crate.name == "bourse_book" and m.w.effects.summary(c.target)["writes"]]
     inplace = []
     replace = []
@@ -41,21 +43,46 @@ def run(ctx):
         s = E.summary(c.target)
         touches_prio = any(m.s_prio in path for (_pi, path) in s["writes"])
         (replace if touches_prio else inplace).append(c)
-    ctx.check(len(inplace) == 1 and len(replace) >= 3, "dispatch", "shape", ctx.loc(f),
-              "modify_order dispatches to 1 in-place call (%s) and %d replacing calls" % (inplace[0].name if inplace else "?", len(replace)),
-              "modify_order has %d calls that keep the priority map and %d that touch it (expected 1 and 3)" % (len(inplace), len(replace)))
+    ctx.check(len(inplace) == 1 and len(replace) >= 1, "dispatch", "shape", ctx.loc(f),
+              "modify_order dispatches to 1 in-place call (%s) and %d replacing call site(s)" % (inplace[0].name if inplace else "?", len(replace)),
+              "modify_order has %d calls that keep the priority map and %d that touch it (expected 1 and >= 1)" % (len(inplace), len(replace)))
+
+    # assumptions are expressed by cutting the branch edges they exclude
+    def var_edges(p, name):
+        return set(cfg.edges_with(lambda a: a[0] == "variant" and a[1] == p and a[2] == (name,)))
+
+    def is_lt(a):   # v < current volume
+        return a[0] == "cmp" and a[1] == "lt" and same(a[2], payload(nv_)) and a[3][0] == "field" and a[3][2] == "vol"
+
+    def is_ge(a):   # current volume <= v
+        return a[0] == "cmp" and a[1] == "le" and a[2][0] == "field" and a[2][2] == "vol" and same(a[3], payload(nv_))
+    P_SOME, P_NONE = var_edges(np_, "Some"), var_edges(np_, "None")
+    V_SOME, V_NONE = var_edges(nv_, "Some"), var_edges(nv_, "None")
+    LT, GE = set(cfg.edges_with(is_lt)), set(cfg.edges_with(is_ge))
+    ACTIVE = set(cfg.edges_with(lambda a: a[0] == "cmp" and a[1] == "eq" and a[2][0] == "field" and a[2][2] == "status" and a[3][0] == "agg" and a[3][2].endswith("Status::Active")))
+    ctx.check(bool(P_SOME and P_NONE and V_SOME and V_NONE and LT and GE and ACTIVE), "dispatch", "tests", ctx.loc(f),
+              "modify_order branches on status == Active, on both options and on v < current volume (strict)",
+              "modify_order lacks one of the tests: price option %s/%s, volume option %s/%s, strict v < vol %s/%s, status %s" % (
+                  bool(P_SOME), bool(P_NONE), bool(V_SOME), bool(V_NONE), bool(LT), bool(GE), bool(ACTIVE)))
+
+    def reachable(c, assume_cut):
+        return c.b in cfg.reach_under(assume_cut)[0]
+
+    def must_run(cs, assume_cut):
+        """under the assumption every path to a return executes one of the calls cs"""
+        reach, cuts = cfg.reach_under(assume_cut)
+        r2 = cfg.reach_from(0, cut_edges=cuts, cut_blocks=[c.b for c in cs])
+        return not (set(f.body.return_blocks()) & r2) and any(c.b in reach for c in cs)
+    NOT_ACTIVE = set(cfg.edges_with(lambda a: a[0] == "cmp" and a[1] == "ne" and a[2][0] == "field" and a[2][2] == "status" and a[3][0] == "agg" and a[3][2].endswith("Status::Active")))
     entity = None
+    lt_atoms = [a for (b_, t_) in LT for a in cfg.edge_atoms(b_, t_) if is_lt(a)]
+    if lt_atoms:
+        entity = lt_atoms[0][3][1]
     for c in inplace:
-        g = c.rguards
-        pv, vv = opt(g, np_), opt(g, nv_)
-        lt = [a for a in g if a[0] == "cmp" and a[1] == "lt" and same(a[2], payload(nv_)) and a[3][0] == "field" and a[3][2] == "vol"]
-        act = [a for a in g if a[0] == "cmp" and a[1] == "eq" and a[2][0] == "field" and a[2][2] == "status" and a[3][0] == "agg" and a[3][2].endswith("Status::Active")]
-        ok = pv == "None" and vv == "Some" and len(lt) == 1 and len(act) == 1
+        ok = not reachable(c, P_NONE) and not reachable(c, V_SOME) and not reachable(c, LT) and not reachable(c, ACTIVE) and reachable(c, P_SOME | V_NONE | GE | NOT_ACTIVE)
         ctx.check(ok, "in-place", "guard", c.loc(), "in-place reduction iff status Active, price None, volume Some(v), v < current volume (strict)",
-                  "in-place reduction taken under [%s] (expected: new_price None && new_vol Some(v) && v < vol, strictly)" % c.gtext())
-        if lt:
-            entity = lt[0][3][1]
-            ctx.check(same(lt[0][3][1], act[0][2][1]) if act else False, "in-place", "same-order", c.loc(), "the volume compared is the volume of the order whose status was tested")
+                  "in-place reduction is reachable outside {new_price None, new_vol Some(v), v < vol strictly, status Active} (conditions seen: %s)" % c.gtext())
+        ctx.check(must_run([c], P_SOME | V_NONE | GE | NOT_ACTIVE), "in-place", "always", c.loc(), "and under those conditions it always runs")
         # argument = vol - v
         b = c02.bin_of(c.args[2]) if len(c.args) > 2 else None
         ok = b is not None and b[0] == "Sub" and b[1][0] == "field" and b[1][2] == "vol" and same(b[2], payload(nv_))
@@ -64,37 +91,44 @@ def run(ctx):
         okp = not any(m.s_prio in path for (_pi, path) in s["writes"]) and not s["unknown"]
         ctx.check(okp, "in-place", "keeps-queue", ctx.loc(c.target), "%s never writes a priority map (effect summary: %s)" % (
             c.target.name, sorted(".".join(p) for _i, p in s["writes"])), "%s may write the priority map" % c.target.name)
-        # only vol of the order is written among order fields
         tq = m.q(c.target)
         ow = [w for w in tq.writes() if w.owner.split("::")[-1] in ("Order", "OrderEntry")]
         ctx.check(all(w.field == "vol" for w in ow) and ow, "in-place", "only-vol", ctx.loc(c.target), "the in-place path writes no order field but vol",
                   "the in-place path also writes %s" % ", ".join(w.text() for w in ow if w.field != "vol"))
-    # replacing dispatches: arguments
-    seen = set()
+    # replacing call sites
+    def kept(e, fname):
+        return e[0] == "field" and e[2] == fname and e[1][0] == "field" and e[1][2] == "order"
+
+    def arg_ok(c, a, p, fname, some_cut, none_cut):
+        """a = requested value when given, else the order's current one"""
+        n = normalize(m.w, a)
+        alts = list(n[1]) if n[0] == "phi" else [n]
+        if len(alts) == 2 and any(same(x, payload(p)) for x in alts) and any(kept(x, fname) for x in alts):
+            return "requested if given, else kept (unwrap_or)"
+        if len(alts) == 1 and same(alts[0], payload(p)) and not reachable(c, some_cut):
+            return "requested (only reached when given)"
+        if len(alts) == 1 and kept(alts[0], fname) and not reachable(c, none_cut):
+            return "kept (only reached when omitted)"
+        return None
     for c in replace:
-        g = c.rguards
-        pv, vv = opt(g, np_), opt(g, nv_)
-        seen.add((pv, vv))
         a_p = c.arg_named("new_price") if "new_price" in c.formals else (c.args[2] if len(c.args) > 2 else None)
         a_v = c.arg_named("new_vol") if "new_vol" in c.formals else (c.args[3] if len(c.args) > 3 else None)
-        want_p = "payload" if pv == "Some" else "kept"
-        want_v = "payload" if vv == "Some" else "kept"
-        okp = (same(a_p, payload(np_)) if want_p == "payload" else (a_p is not None and a_p[0] == "field" and a_p[2] == "price"))
-        okv = (same(a_v, payload(nv_)) if want_v == "payload" else (a_v is not None and a_v[0] == "field" and a_v[2] == "vol" and a_v[1][0] == "field"))
-        ctx.check(okp and okv and pv is not None and vv is not None, "replace", "args|%s,%s" % (pv, vv), c.loc(),
-                  "(%s, %s): replaced with price %s, volume %s" % (pv, vv, "requested" if want_p == "payload" else "kept", "requested" if want_v == "payload" else "kept"),
-                  "(%s, %s): replacement called with price=%s volume=%s" % (pv, vv, render(a_p) if a_p else "?", render(a_v) if a_v else "?"))
-        if (pv, vv) == ("None", "Some"):
-            ge = [a for a in g if a[0] == "cmp" and a[1] == "le" and a[2][0] == "field" and a[2][2] == "vol" and same(a[3], payload(nv_))]
-            ctx.check(len(ge) == 1, "replace", "boundary", c.loc(), "volume-only replacement exactly when v >= current volume",
-                      "volume-only replacement under [%s]" % c.gtext())
-    ctx.check(seen == {("Some", "Some"), ("Some", "None"), ("None", "Some")}, "dispatch", "cases", ctx.loc(f),
-              "replacing dispatch covers (Some,Some), (Some,None), (None,Some v>=vol)", "replacing dispatch covers %s" % sorted(seen))
-    # (None, None): no effect -> no effectful call is feasible under both None
-    none_calls = [c for c in calls if opt(c.rguards, np_) == "None" and opt(c.rguards, nv_) == "None"]
-    unguarded = [c for c in calls if opt(c.rguards, np_) is None or opt(c.rguards, nv_) is None]
-    ctx.check(not none_calls and not unguarded, "noop", "none-none", ctx.loc(f), "a modification with nothing to change reaches no effectful call",
-              "effectful call reachable with (None, None) or without a full dispatch: %s" % ", ".join(c.text()[:50] for c in none_calls + unguarded))
+        rp = arg_ok(c, a_p, np_, "price", P_SOME, P_NONE) if a_p is not None else None
+        rv = arg_ok(c, a_v, nv_, "vol", V_SOME, V_NONE) if a_v is not None else None
+        ctx.check(rp is not None and rv is not None, "replace", "args|bb", c.loc(), "replacement gets price: %s; volume: %s" % (rp, rv),
+                  "replacement called with price=%s volume=%s (expected: the requested value when given, otherwise the order's current one)" % (
+                      render(a_p) if a_p else "?", render(a_v) if a_v else "?"))
+        ctx.check(not reachable(c, ACTIVE), "replace", "active-only", c.loc(), "replacement only for an Active order")
+    none_none = [c for c in calls if reachable(c, P_SOME | V_SOME)]
+    ctx.check(not none_none, "noop", "none-none", ctx.loc(f), "a modification with nothing to change reaches no effectful call",
+              "effectful call reachable with (None, None): %s" % ", ".join(c.text()[:50] for c in none_none))
+    red = [c for c in replace if reachable(c, P_SOME | V_NONE | GE)]
+    ctx.check(not red, "replace", "not-for-reductions", ctx.loc(f), "a pure volume reduction never goes through the replacement path",
+              "a pure volume reduction can reach the replacement path")
+    OFFGRID = set(cfg.edges_with(lambda a: a[0] == "cmp" and a[1] == "ne" and a[2][0] == "bin" and a[2][1] == "Rem" and a[3][0] == "const" and a[3][3] == 0))
+    ctx.check(must_run(replace, P_NONE | NOT_ACTIVE | OFFGRID) and must_run(replace, P_SOME | V_NONE | LT | NOT_ACTIVE), "dispatch", "cases", ctx.loc(f),
+              "every Active order with a price given, or a volume not below the current one, is replaced",
+              "some modification with a new price / a non-reducing volume does not reach the replacement")
     # the replacing callee
     targets = {c.target.path: c.target for c in replace}
     ctx.check(len(targets) == 1, "replace", "single-callee", ctx.loc(f), "all replacing dispatches go through one function")
